@@ -57,6 +57,7 @@ partial def hintOf : Sexp → Option Hint
   | .list [.atom "map", o, k, v] => do pure (.mapping (← o.nat?) (← hintOf k) (← hintOf v))
   | .list (.atom "type" :: cs) => (cs.mapM Sexp.nat?).map .typeOf
   | .list (.atom "ann" :: h :: vs) => do pure (.annotated (← hintOf h) (← vs.mapM valeOf))
+  | .list (.atom "generic" :: c :: bs) => do pure (.generic (← c.nat?) (← bs.mapM hintOf))
   | _ => none
 
 partial def objOf : Sexp → Option Obj
@@ -113,6 +114,8 @@ def tableOf : Sexp → Option Table
     let sz ← bitsOf sized; let ix ← bitsOf indexable; let ri ← bitsOf reiter; let mp ← bitsOf mapping
     pure { rows := m.map Array.toList, sized := sz.toList, indexable := ix.toList, reiter := ri.toList, mapping := mp.toList }
   | _ => none
+
+def worldOf (s : Sexp) : Option World := do pure ((← tableOf s).world predTable)
 
 def boolStr (b : Bool) : Sexp := .atom (if b then "true" else "false")
 
